@@ -7,7 +7,7 @@ Every random choice comes from one SplitMix64 state, so a trace is reproducible 
   own    operation whose (projected) output the property under check speaks about
 """
 
-GEN_VERSION = 14
+GEN_VERSION = 15
 
 MASK64 = (1 << 64) - 1
 
@@ -87,6 +87,10 @@ class Universe:
             return m
         if c < 32:
             return max(m - 1, 0)
+        if c < 42 and m > 10:
+            # word and byte boundaries of the wider types (and their neighbours)
+            cands = [x for x in (7, 8, 9, 15, 16, 17, 24, 31, 32, 33, 48, 63, 64, 65, 96, 120, 126) if x <= m]
+            return r.pick(cands)
         if c < 85:
             return r.below(min(m, 10) + 1)
         return r.below(m + 1)
